@@ -147,6 +147,10 @@ def _hashable_key(v) -> bool:
     return _concrete(v) and not isinstance(v, (list, dict, set))
 
 
+_BUILTIN_TYPES = {"str": str, "int": int, "float": float, "dict": dict, "list": list, "tuple": tuple, "set": set,
+                  "frozenset": frozenset, "bytes": bytes, "bool": bool}
+
+
 def _concrete(v) -> bool:
     if isinstance(v, (Unk, T, Obj, Closure, Bound, PyFunc, ClassRef)):
         return False
@@ -235,10 +239,7 @@ class Interp:
                                     "sub": PyFunc(lambda p, r, s, *a: re.sub(p, r, s), "re.sub")}),
             "functools.reduce": PyFunc(self._reduce, "reduce", True),
             "functools.partial": PyFunc(lambda f, *a, **k: Obj("partial", {"fmt": "<partial>"}, call=lambda *a2, **k2: self.call(f, list(a) + list(a2), {**k, **k2})), "partial", True),
-            "itertools.product": PyFunc(lambda *a, repeat=1: list(__import__("itertools").product(*[list(q) for q in a], repeat=repeat)), "product", True),
-            "itertools.chain": PyFunc(lambda *a: [y for q in a for y in q], "chain", True),
-            "itertools.groupby": PyFunc(self._groupby, "groupby", True),
-            "itertools.combinations": PyFunc(lambda a, r: list(__import__("itertools").combinations(list(a), r)), "combinations", True),
+            **{f"itertools.{k}": v for k, v in self._itertools().items()},
             "collections.namedtuple": PyFunc(lambda name, fields, **k: PyFunc(lambda *a, **kw: tuple(a) + tuple(kw[f] for f in fields[len(a):]), name, True), "namedtuple", True),
             "sympy.utilities.iterables.iterable": PyFunc(lambda x, *a, **k: isinstance(x, (list, tuple, set, dict)), "iterable", True),
             "sympy.utilities.iterables.flatten": PyFunc(lambda x, *a, **k: _flatten(x), "flatten", True),
@@ -247,10 +248,7 @@ class Interp:
                 "isclass": PyFunc(lambda x: isinstance(x, ClassRef), "isclass", True)}),
             "keyword": Obj("module:keyword", {"iskeyword": PyFunc(__import__("keyword").iskeyword, "iskeyword")}),
             "builtins": Obj("module:builtins"),
-            "itertools": Obj("module:itertools", {
-                "product": PyFunc(lambda *a, repeat=1: list(__import__("itertools").product(*[list(q) for q in a], repeat=repeat)), "product", True),
-                "chain": PyFunc(lambda *a: [y for q in a for y in q], "chain", True),
-                "combinations": PyFunc(lambda a, r: list(__import__("itertools").combinations(list(a), r)), "combinations", True)}),
+            "itertools": Obj("module:itertools", dict(self._itertools())),
             "collections.Counter": PyFunc(lambda x=(): __import__("collections").Counter(x), "Counter"),
             "dataclasses.fields": PyFunc(lambda o: [], "fields", True),
             "string": Obj("module:string", {"ascii_lowercase": "abcdefghijklmnopqrstuvwxyz",
@@ -264,6 +262,59 @@ class Interp:
         # classes whose instances (Obj of that kind) resolve attributes through the repository source
         self.instance_classes = {"MultiVector": "multivector.MultiVector", "TapeRecorder": "taperecorder.TapeRecorder",
                                  "GraphWidget": "graph.GraphWidget"}
+
+    def _itertools(self):
+        """Stand-ins for itertools on the interpreter's eager lists."""
+        import itertools as _it
+
+        def seq(q):
+            q = self._iterable(q)
+            if isinstance(q, (Unk, T, Obj)):
+                raise NoValue("itertools over an abstract iterable")
+            return list(q)
+
+        def repeat(x, times=None):
+            if times is None:
+                raise NoValue("itertools.repeat without a count")
+            return [x] * times
+
+        def accumulate(q, func=None, *, initial=None):
+            out, acc, first = [], initial, initial is None
+            if initial is not None:
+                out.append(initial)
+            for x in seq(q):
+                if first:
+                    acc, first = x, False
+                else:
+                    acc = self.call(func, [acc, x], {}) if func is not None else self.binop(ast.Add(), acc, x)
+                out.append(acc)
+            return out
+
+        def zip_longest(*qs, fillvalue=None):
+            return list(_it.zip_longest(*[seq(q) for q in qs], fillvalue=fillvalue))
+
+        chain = PyFunc(lambda *a: [y for q in a for y in seq(q)], "chain", True)
+        chain_obj = Obj("itertools.chain", {"fmt": "<chain>", "from_iterable": PyFunc(lambda qq: [y for q in seq(qq) for y in seq(q)], "chain.from_iterable", True)},
+                        call=lambda *a: [y for q in a for y in seq(q)])
+        return {
+            "product": PyFunc(lambda *a, repeat=1: list(_it.product(*[seq(q) for q in a], repeat=repeat)), "product", True),
+            "chain": chain_obj,
+            "groupby": PyFunc(self._groupby, "groupby", True),
+            "combinations": PyFunc(lambda a, r: list(_it.combinations(seq(a), r)), "combinations", True),
+            "combinations_with_replacement": PyFunc(lambda a, r: list(_it.combinations_with_replacement(seq(a), r)), "combinations_with_replacement", True),
+            "permutations": PyFunc(lambda a, r=None: list(_it.permutations(seq(a), r)), "permutations", True),
+            "repeat": PyFunc(repeat, "repeat", True),
+            "starmap": PyFunc(lambda f, q: [self.call(f, list(xs), {}) for xs in seq(q)], "starmap", True),
+            "accumulate": PyFunc(accumulate, "accumulate", True),
+            "zip_longest": PyFunc(zip_longest, "zip_longest", True),
+            "islice": PyFunc(lambda q, *a: list(_it.islice(seq(q), *a)), "islice", True),
+            "takewhile": PyFunc(lambda f, q: list(_it.takewhile(lambda x: self.truth(self.call(f, [x], {})), seq(q))), "takewhile", True),
+            "dropwhile": PyFunc(lambda f, q: list(_it.dropwhile(lambda x: self.truth(self.call(f, [x], {})), seq(q))), "dropwhile", True),
+            "filterfalse": PyFunc(lambda f, q: [x for x in seq(q) if not self.truth(self.call(f, [x], {}) if f is not None else x)], "filterfalse", True),
+            "compress": PyFunc(lambda q, sel: [x for x, s_ in zip(seq(q), seq(sel)) if self.truth(s_)], "compress", True),
+            "count": PyFunc(lambda *a: (_ for _ in ()).throw(NoValue("itertools.count is unbounded")), "count", True),
+            "pairwise": PyFunc(lambda q: list(zip(seq(q), seq(q)[1:])), "pairwise", True),
+        }
 
     # ------------------------------------------------------------------ builtins
     def _len(self, v):
@@ -559,7 +610,9 @@ class Interp:
             raise NoValue(f"operator {type(op).__name__}")
         try:
             return fn(a, b)
-        except TypeError:
+        except TypeError as exc:
+            if not (_concrete(a) and _concrete(b)):
+                raise NoValue(f"operator {type(op).__name__} on abstract operands ({exc})")
             raise Raised("TypeError", node)
         except ZeroDivisionError:
             raise Raised("ZeroDivisionError", node)
@@ -682,6 +735,8 @@ class Interp:
                     if "classmethod" in decos:
                         return PyFunc(lambda *a, **k: self.call_function(d, [v] + list(a), k, {}, module), f"{v.name}.{name}", True)
                     return PyFunc(lambda *a, **k: self.call_function(d, list(a), k, {}, module), f"{v.name}.{name}", True)
+            if v.name in _BUILTIN_TYPES and hasattr(_BUILTIN_TYPES[v.name], name):
+                return PyFunc(getattr(_BUILTIN_TYPES[v.name], name), f"{v.name}.{name}")
             if v.name == "object" and name == "__new__":
                 return PyFunc(lambda cls, *a, **k: Obj(cls.name if isinstance(cls, ClassRef) else "object"), "object.__new__", True)
             return Unk(f"{v.name}.{name}")
@@ -818,7 +873,10 @@ class Interp:
                 return f.fn(*args, **kwargs)
             except (Raised, NoValue):
                 raise
-            except TypeError:
+            except TypeError as exc:
+                if not (_concrete(args) and _concrete(kwargs)):
+                    # a Python-level TypeError on ABSTRACT arguments is a gap of this interpreter, not the program's
+                    raise NoValue(f"{f.name} cannot be applied to abstract arguments ({exc})")
                 raise Raised("TypeError", node)
             except ValueError:
                 raise Raised("ValueError", node)
